@@ -18,9 +18,11 @@ Theorem C02_add_isolated : forall d t a g t',
 Proof. exact add_isolated. Qed.
 Print Assumptions C02_add_isolated.
 
-(* a bare triple goes to the default graph *)
-Theorem C02_add_triple_default : forall d t g t',
-  holds (cg_add d t CTriple) g t' <-> holds d g t' \/ (g = 0 /\ t' = t).
+(* a bare triple, and (since the "fix:" commit for F18) a quad whose graph is
+   None, go to the default graph and nowhere else *)
+Theorem C02_add_triple_default : forall d t ca g t',
+  ca = CTriple \/ ca = CQuad None ->
+  (holds (cg_add d t ca) g t' <-> holds d g t' \/ (g = 0 /\ t' = t)).
 Proof. exact add_triple_default. Qed.
 Print Assumptions C02_add_triple_default.
 
@@ -91,9 +93,9 @@ Print Assumptions C02_hist_context_or_c_refuted.
 
 (* ---- all views describe the same mapping, over every history ---- *)
 
-(* After every operation of every well-formed history, outside the two
-   known-finding regions (kf c = 0: no quad with graph None is added, no
-   restricted quads() is asked while a matching triple is shared), each read's
+(* After every operation of every well-formed history, outside the one
+   known-finding region (kf c = 0: no restricted quads() is asked while a
+   matching triple is shared with another graph - F17), each read's
    answer and the whole snapshot (quads(), graphs(), every Graph(store, name)
    view and its len, len(ds), the default_union view, the default graph, the
    quad membership matrix) are duplicate-free enumerations of the images of ONE
@@ -106,20 +108,24 @@ Print Assumptions C02_views_agree_partial.
 
 (* the same from any related pair of states, any front-end kind *)
 Theorem C02_views_agree_from_partial : forall c ops d sp,
-  R d sp -> is_ds d = c_ds c -> forallb op_wf ops = true ->
-  existsb adds_none ops = false -> leak_run sp ops = false ->
+  R d sp -> is_ds d = c_ds c -> forallb op_wf ops = true -> leak_run sp ops = false ->
   spec_run c sp ops (run c d ops) = true.
 Proof. exact spec_run_model. Qed.
 Print Assumptions C02_views_agree_from_partial.
 
-(* without the trigger hypothesis the statement is false: F17, F18 *)
+(* without the trigger hypothesis the statement is false: F17 (kept as a known
+   finding: test_aggregate_graphs.py::test_aggregate2 pins the behaviour) *)
 Theorem C02_quads_restricted_refuted : exists c, wf c /\ kf c = 1 /\ spec_ok c (model_obs c) = false.
 Proof. exact quads_restricted_refuted. Qed.
 Print Assumptions C02_quads_restricted_refuted.
 
-Theorem C02_add_none_graph_refuted : exists c, wf c /\ kf c = 2 /\ spec_ok c (model_obs c) = false.
-Proof. exact add_none_graph_refuted. Qed.
-Print Assumptions C02_add_none_graph_refuted.
+(* the _spoc the code had before the "fix:" commit for F18 filed a quad whose
+   graph is None under NO graph: the merged view shows it, no graph holds it *)
+Theorem C02_hist_spoc_none_refuted :
+  exists t, let d := cg_add_hist (ds_init true) t (CQuad None) in
+    In t (snd (cg_triples d pall CTriple None true)) /\ forall g, ~ holds d g t.
+Proof. exact hist_spoc_none_refuted. Qed.
+Print Assumptions C02_hist_spoc_none_refuted.
 
 (* ---- what the boolean checker means ---- *)
 Theorem C02_snapshot_reading : forall c sp s,
@@ -133,8 +139,7 @@ Theorem C02_snapshot_reading : forall c sp s,
 Proof. exact snap_ok_reading. Qed.
 Print Assumptions C02_snapshot_reading.
 
-Theorem C02_trigger_reading : forall c,
-  kf c = 0 <-> existsb adds_none (c_ops c) = false /\ leak_run sp_init (c_ops c) = false.
+Theorem C02_trigger_reading : forall c, kf c = 0 <-> leak_run sp_init (c_ops c) = false.
 Proof. exact kf_zero. Qed.
 Print Assumptions C02_trigger_reading.
 
@@ -160,11 +165,12 @@ Example C02_nonvacuous :
   let c := {| c_ds := true; c_names := [0; 1; 3; 2]; c_vocab := [(1, 3, 5); (2, 3, 1)];
               c_ops := [OAdd (1, 3, 5) (CQuad (Some (GId 1))); OAdd (1, 3, 5) (CQuad (Some (GId 3)));
                         OAdd (2, 3, 1) (CQuad (Some (GForeign 3 [(1, 3, 5)]))); OGraph (Some (GId 2));
+                        OAdd (9, 3, 9) (CQuad None);
                         ORemove (Some 1, None, None) (CQuad (Some (GId 1)));
                         OTriples pall CTriple (Some (GView 1)) true;
                         OQuads pall (CQuad (Some (GId 3)));
                         ORemoveGraph (Some (GView 3)); OContains (pat_of (1, 3, 5)) (CQuad (Some (GId 3))) false] |} in
-  wf c /\ kf c = 0 /\ length (model_obs c) = 9%nat
+  wf c /\ kf c = 0 /\ length (model_obs c) = 10%nat
   /\ exists s, nth_error (model_obs c) 3 = Some (RNone, s) /\ o_graphs s = [1; 0; 3; 2]
                /\ o_views s = [(0, []); (1, [(1, 3, 5)]); (3, [(1, 3, 5); (2, 3, 1)]); (2, [])].
 Proof.
